@@ -39,3 +39,14 @@ pub async fn start_language_server<TCompilationProfile: CompilationProfile>(
         .map_err(|e| LocationFreeDiagnostic::from_error(e).wrap_vec())?;
     Ok(())
 }
+
+/// Verification hook: the handlers and state that the server loop drives, so that a
+/// deterministic simulator can choose the order in which the loop's arms fire. Compiled only
+/// with `--cfg isographlabs_isograph_verif`.
+#[cfg(isographlabs_isograph_verif)]
+pub mod verif_exports {
+    pub use crate::diagnostic_notification::verif_publish_new_diagnostics_and_clear_old_diagnostics as publish_new_diagnostics_and_clear_old_diagnostics;
+    pub use crate::lsp_state::LspState;
+    pub use crate::server::verif_dispatch_notification as dispatch_notification;
+    pub use crate::server::verif_dispatch_request as dispatch_request;
+}
